@@ -36,11 +36,10 @@ def g_scripts(ctx, focus, name, cfg, ncalls, start_connected, cap=None, every=1)
     ctx.run_tlc(name, "EBB3LinkMC", cfg, dump=dump)
     items, events, drifts = [], [], 0
     n = 0
-    for hist, dev, _b, st in L.scripts_from_dump(dump + ".dump", ncalls):
+    for hist, dev, board, st in L.scripts_from_dump(dump + ".dump", ncalls):
         n += 1
         if n % every or (cap and len(items) >= cap):
             continue
-        board = L.board_of_init(st["board"]) if False else {"nick": "Lab", "m1": False, "m2": False, "res": 1, "volt": 300}
         calls, drift = L.run_script(hist, dev, board, start_connected)
         script = [[h["m"], list(h["a"]), h["s"], [dict((k, v) for k, v in e.items() if k != "r") for e in h["env"]]] for h in hist]
         ctx.count((focus, repr(script), dev))
